@@ -55,7 +55,7 @@ def passK (g : K → K) (first : Bool) (st : BState K) : BState K :=
 theorem bisectPass_evOf (g : K → K) (first : Bool) (st : BState K) :
     bisectPass (evOf g) first st = .ok (passK g first st) := by
   unfold bisectPass evOf passK nextErr
-  simp only [sabs_eq_abs, Nat.cast_ofNat, Bool.and_eq_true, Bool.not_eq_eq_eq_not, Bool.not_true,
+  simp only [sabs_eq_abs, Nat.cast_ofNat, ← add_div, Bool.and_eq_true, Bool.not_eq_eq_eq_not, Bool.not_true,
     beq_eq_false_iff_ne, beq_iff_eq, ne_eq]
   split_ifs <;> rfl
 
@@ -65,7 +65,7 @@ theorem bisectPass_bracket {ev : K → Except PErr K} {first : Bool} {st st' : B
   have hm1 : st.lower ≤ (st.lower + st.upper) / 2 := by linarith
   have hm2 : (st.lower + st.upper) / 2 ≤ st.upper := by linarith
   unfold bisectPass at h
-  simp only [Nat.cast_ofNat] at h
+  simp only [Nat.cast_ofNat, ← add_div] at h
   split at h
   · cases h
   · split at h
